@@ -13,8 +13,9 @@ ParV == [b \in 1 .. (H + F + F2) |-> IF b <= H THEN b - 1 ELSE IF b = H + 1 THEN
                                        ELSE IF b <= H + F THEN b - 1 ELSE IF b = H + F + 1 THEN ForkAt2 ELSE b - 1]
 CpsV == {h \in CpHs : h <= H}        \* checkpoints are honest-chain blocks (block id = height on the honest chain)
 
-VARIABLES hist, nenv, script, knownOnly, dropped     \* dropped: an inv was dropped by handleInvMsg's "not the sync peer and not current" rule
-msyvars == <<syvars, hist, nenv, dropped, knownOnly, script>>   \* knownOnly: a headers reply brought no new longest-chain header ("do nothing")
+VARIABLES hist, nenv, script, knownOnly, dropped,    \* dropped: an inv was dropped by handleInvMsg's "not the sync peer and not current" rule
+          chose      \* a manager step picked a new sync peer among SEVERAL candidates (the code picks at random)
+msyvars == <<syvars, hist, nenv, dropped, knownOnly, script, chose>>   \* knownOnly: a headers reply brought no new longest-chain header ("do nothing")
 
 NB == H + F + F2
 StV == [k \in 1 .. (NB + 1) |-> IF (k - 1) \in DOMAIN rows' THEN rows'[k - 1].st ELSE "-"]
@@ -25,7 +26,7 @@ Obs == [sent |-> lastSent', tip |-> TipOf(rows'), st |-> StV, sync |-> syncPeer'
 
 \* a script (chosen by the driver) fixes the KIND of every environment event; TLC enumerates who, what and how.  <<>> = free
 Scripts == {<<>>}
-MSyInit == SyInit /\ hist = <<>> /\ nenv = 0 /\ dropped = FALSE /\ knownOnly = FALSE /\ script \in Scripts
+MSyInit == SyInit /\ hist = <<>> /\ nenv = 0 /\ dropped = FALSE /\ knownOnly = FALSE /\ script \in Scripts /\ chose = FALSE
 
 \* scenario constraints keep the replay deterministic and inside the property's premises:
 \*  - at most one sync-peer candidate can be chosen at any time (the code picks randomly among several)
@@ -41,13 +42,13 @@ AskLocs(p) == {<<0>>, <<nd[p].best, 0>>, <<NB + 7, nd[p].best>>}
 AskStops(p) == {-1} \cup ({nd[p].best} \ {0})     \* a stop at genesis is the listed finding D9 of C13, not asked here
 Kind(k) == script = <<>> \/ (nenv < Len(script) /\ script[nenv + 1] = k)
 EnvBound == IF script = <<>> THEN MaxEnv ELSE Len(script)
-LogEnv(rec) == hist' = Append(hist, rec @@ [kind |-> "env"]) /\ nenv' = nenv + 1 /\ UNCHANGED <<dropped, knownOnly, script>>
+LogEnv(rec) == hist' = Append(hist, rec @@ [kind |-> "env"]) /\ nenv' = nenv + 1 /\ UNCHANGED <<dropped, knownOnly, script, chose>>
 Pending == {q \in Peers : nd[q].conn /\ nq[q] # <<>>}
 \* phase 2: after the MaxEnv environment events every connected node keeps answering (lowest id first) until nothing is asked
 MDrain ==
   /\ mq = <<>> /\ nenv >= EnvBound /\ Pending # {}
   /\ LET p == Min(Pending) IN NodeReply(p) /\ hist' = Append(hist, [op |-> "reply", p |-> p, ids |-> ReplyIds(p, Head(nq[p])), kind |-> "env"])
-  /\ UNCHANGED <<nenv, dropped, knownOnly, script>>
+  /\ UNCHANGED <<nenv, dropped, knownOnly, script, chose>>
 
 MEnv ==
   /\ mq = <<>> /\ nenv < EnvBound
@@ -77,14 +78,17 @@ KnownOnlyReply == LET m == Head(mq) IN
      IN res.stop = "" /\ res.final = 0
 MMgr == MgrStep /\ hist' = Append(hist, [kind |-> "mgr"] @@ Obs) /\ UNCHANGED <<nenv, script>> /\ dropped' = (dropped \/ InvDropped)
         /\ knownOnly' = (knownOnly \/ KnownOnlyReply)
+        \* the new sync peer was one of several candidates (the one chosen is still among them afterwards)
+        /\ chose' = (chose \/ (syncPeer' # syncPeer /\ syncPeer' # 0 /\ Cardinality(Candidates(pk', rows')) >= 2))
 
 MSyNext == MMgr \/ MEnv \/ MDrain
 MSySpec == MSyInit /\ [][MSyNext]_msyvars /\ WF_msyvars(MMgr)
 \* everything that guards an action must be in the view, or TLC merges states with different futures
-SyView == <<syvars, nenv, NConn, NRst, NAsk, NRaw, dropped, knownOnly, script>>
+SyView == <<syvars, nenv, NConn, NRst, NAsk, NRaw, dropped, knownOnly, script, chose>>
 
 \* random choice among several candidates: only single-candidate situations are generated for replay
-ChoiceConstraint == Cardinality(Candidates(pk, rows)) <= 1 \/ syncPeer # 0 \/ mq = <<>>
+\* (the state test alone misses the sync peer LEAVING while two other candidates are connected - three-node families)
+ChoiceConstraint == ~chose /\ (Cardinality(Candidates(pk, rows)) <= 1 \/ syncPeer # 0 \/ mq = <<>>)
 
 \* reachability witness (must be VIOLATED by the families that are meant to exercise a banned host coming back)
 NoBannedConnect == \A k \in 1 .. Len(hist) : (hist[k].kind = "env" /\ hist[k].op = "connect") => ~hist[k].banned
